@@ -309,3 +309,70 @@ Section C05_full.
   Proof. exact (resolve_g_total_correctness_full O L veqb reg r rv R pkgs). Qed.
 End C05_full.
 Print Assumptions model_total_correctness_full.
+
+(* The capstone for the VersionSet of the crate, Range over Z (Proofs/SolverEndToEndRange.v): lawfulness, atomic
+   singletons, the ranked algebra (ranges whose bounds lie in a finite list bs) and the boolean equalities are
+   discharged; what remains is a well-formed registry with finitely many packages whose bounds lie in bs, and a provider
+   that serves it.  [total_correctness_range_nonvacuous]: all hypotheses hold for a recorded registry; the run is computed. *)
+From Coq Require Import List NArith ZArith Bool Lia PeanoNat Permutation.
+From PG Require Import Model.VS Model.Term Model.Heap Model.Range Model.Solver Model.Registry Model.Instances
+  Proofs.VSLaws Proofs.RangeVS Proofs.SolverSem
+  Proofs.AssocProofs Proofs.SolverStore Proofs.SolverShared Proofs.SolverProto2 Proofs.SolverNoPanic1 Proofs.SolverNoPanic
+  Proofs.SolverTerm1 Proofs.SolverTerm4 Proofs.SolverTerm Proofs.SolverQueue2 Proofs.SolverSound
+  Proofs.SolverTrace Proofs.SolverDet Proofs.HeapProofs Proofs.SolverDetQueue Proofs.SolverDetInst Proofs.SolverGen
+  Proofs.SolverProtocol Proofs.SolverTree Proofs.SolverReach Proofs.SolverExamples Proofs.SolverReachExample Proofs.SolverTermRange
+  Proofs.SolverTermExample Proofs.SolverEndToEnd Proofs.SolverEndToEndExample Proofs.SolverEndToEndFull.
+From PG Require Import Proofs.SolverEndToEndRange.
+Import ListNotations.
+Local Open Scope nat_scope.
+Theorem model_total_correctness_range :
+  forall (bs : list Z) (pkgs : list pkg) (reg : registry (VS := RZ.range) (Vr := Z)) (r : pkg) (rv : Z),
+    reg_wf RZ.range_vs rz_lawful reg ->
+    In r pkgs ->
+    (forall p v ds q s, reg_deps reg p v = Some ds -> In (q, s) ds -> In q pkgs) ->
+    (forall p v ds q s, reg_deps reg p v = Some ds -> In (q, s) ds -> ZTerm.RR.range_in bs s) ->
+    (forall p v, In v (reg_versions reg p) -> In v bs) -> In rv bs ->
+    forall (pg : @tprovider RZ.range Z) fuel res (tr : list (@event RZ.range Z)),
+      serves RZ.range_vs reg pg -> Fuel1 RZ.range_vs rz_lawful (rz_ranked bs) pkgs <= fuel ->
+      resolve_g RZ.range_vs Z.eqb pg fuel r rv = (res, tr) ->
+      (* C05: bounded number of calls *)
+      length tr <= Events0 RZ.range_vs rz_lawful (rz_ranked bs) pkgs
+      (* the trace is a recording of the provider *)
+      /\ generated_by (to_provider pg) [] tr
+      (* C12: the protocol; every clause of Props/Properties_C12.v *)
+      /\ (   shape Z.eqb (P0 (Vr := Z)) [] tr = true
+          /\ match tr with [] => True | e :: _ => exists ok, e = EvCancel ok end
+          /\ (forall (pre : list (@event RZ.range Z)) p s a (rest : list (@event RZ.range Z)),
+                tr = pre ++ EvChoose p s a :: rest ->
+                match rest with
+                | [] => True
+                | EvCancel _ :: _ => True
+                | EvDeps p' v' _ :: rest' =>
+                    (exists v, a = CSome v /\ N.eqb p p' && Z.eqb v v' = true) /\
+                    match rest' with [] => True | EvCancel _ :: _ => True | _ => False end
+                | _ => False
+                end)
+          /\ (forall (pre : list (@event RZ.range Z)) p' v' a rest, tr = pre ++ EvDeps p' v' a :: rest ->
+                exists pre0 p s v, pre = pre0 ++ [EvChoose p s (CSome v)] /\ N.eqb p p' && Z.eqb v v' = true)
+          /\ NoDup (deps_of tr)
+          /\ (forall i p s a, nth_error tr i = Some (EvChoose p s a) -> exists z, last_prio_at tr i p s z)
+          /\ (forall i p s a, nth_error tr i = Some (EvChoose p s a) ->
+                s <> vs_empty RZ.range_vs /\ vs_eqb RZ.range_vs s (vs_empty RZ.range_vs) = false)
+          /\ (forall i p s a, nth_error tr i = Some (EvChoose p s a) ->
+                (forall j e, j < i -> nth_error tr j = Some e -> is_choose e = false) ->
+                p = r /\ s = vs_singleton RZ.range_vs rv /\ i = 2 /\
+                exists z, firstn i tr = [EvCancel true; EvPrioritize r (vs_singleton RZ.range_vs rv) z]))
+      /\ ((exists sol, fst (fst (fst res)) = OSolution sol
+             (* C01 *)
+             /\ Solution RZ.range_vs reg r rv (fun p => get p sol)
+             /\ NoDup (map fst sol) /\ (forall p v, In (p, v) sol -> In v (reg_versions reg p))
+             (* C04 *)
+             /\ (forall p v, In (p, v) sol -> reach reg r sol p))
+          \/ (exists t, fst (fst (fst res)) = ONoSolution t
+             (* C02 *)
+             /\ (forall a, ~ Solution RZ.range_vs reg r rv a)
+             (* C03 *)
+             /\ tree_ok RZ.range_vs reg r rv t /\ top_forbids_root RZ.range_vs r rv t)).
+Proof. exact resolve_g_total_correctness_range. Qed.
+Print Assumptions model_total_correctness_range.
+
